@@ -17,6 +17,9 @@ TRUSTED = [
     "libc: printf %d/%u/%ld/%lu/%lld/%llu/%x/%lx/%llx/%02X mean decimal / lower- and upper-case hexadecimal (modelled, checked by "
     "the correspondence); the %.6g rendering of a finite double and machine addresses are environment inputs of toString",
     "STRCMP_EQUAL fails the test and does not return exactly when the two strings differ (C03 area)",
+    "eqapi: the wiring of the C layer is read from C19's regenerated Gen/CMockWiring.lean (translate/extract_cmock.py, run by this "
+    "check too); that a call matches an expectation iff expected.equals(actual) for its one parameter (C08 area) is checked by "
+    "the correspondence of this run only",
     "IEEE-754 double arithmetic of the hardware for finite operands (fabs(a-b) <= t): same hardware on both sides of the diff",
 ]
 ASSUMPTIONS = [
@@ -34,7 +37,9 @@ RULE = ("all 36 ordered integer type pairs x the boundary lattice squared (exhau
         "0/127/128/129/300 bytes), compatibleForCopying pairs, all non-integer getters, names, and stateful histories of the value "
         "list (duplicate names) and of four comparator/copier repositories (install, lookup, import, clear, default switch, object "
         "values created in between); non-trivial = an op on two different types, an alias pair, a getter, a rendering or a "
-        "lookup; distinct = distinct op lists")
+        "lookup; eqapi: every pair of typed API entry points (C++ withParameter overload, explicit C++ method, C interface; "
+        "expectation x actual, 18 x 18) with boundary / same-bits value pairs (thorough: lattice squared), the whole "
+        "expect/actual/checkExpectations scenario inside a real test; distinct = distinct op lists")
 
 RANGE = {
     "int": (-2**31, 2**31 - 1), "uint": (0, 2**32 - 1),
@@ -330,7 +335,31 @@ def generate(rng, tier):
             else:
                 ops.append("tostr %s:%s:%d" % (rng.choice(["obj", "cobj"]), t, rng.randint(0, 7)))
         out.append(("repo", ops))
-    # 8. malformed stream: tokens the harness must reject (`> skip`) mixed with valid ones
+    # 8. values entering through every typed entry point of both APIs (C++ overload / explicit C++ method / C interface) on
+    #    the expectation and on the actual side: the scenario passes exactly when the two are the same integer
+    APIS = ["ovl", "exp", "c"]
+    crit = [(2**64 - 1, -1), (2**63, -2**63), (2**32 - 1, -1), (2**31, -2**31), (2**32, 0), (2**64 - 1, 2**64 - 1),
+            (2**63, 2**63), (2**63 - 1, 2**63 - 1), (2**32 - 1, 2**32 - 1), (2**31 - 1, 2**31 - 1), (-1, -1), (0, 0),
+            (-2**63, -2**63), (-2**31, -2**31), (2**63 + 1, -2**63 + 1), (1, 1)]
+    ops = []
+    for ea in APIS:
+        for ke in INT_KINDS:
+            for aa in APIS:
+                for ka in INT_KINDS:
+                    if tier == "thorough":
+                        pairs = [(x, y) for x in lattice_of(ke) for y in lattice_of(ka)]
+                    else:
+                        pairs = [(x, y) for (x, y) in crit + [(y, x) for (x, y) in crit] if in_range(ke, x) and in_range(ka, y)]
+                        pairs = list(dict.fromkeys(pairs))
+                        for _ in range(2):
+                            x = rng.choice(lattice_of(ke))
+                            cands = [y for y in aliases(x) if in_range(ka, y)]
+                            pairs.append((x, rng.choice(cands) if cands and rng.random() < 0.7 else rng.choice(lattice_of(ka))))
+                    for x, y in pairs:
+                        ops.append("eqapi %s.%s:%d %s.%s:%d" % (ea, ke, x, aa, ka, y))
+    for c in chunks(ops, 48):
+        out.append(("eqapi", c))
+    # 9. malformed stream: tokens the harness must reject (`> skip`) mixed with valid ones
     bad = ["int:2147483648", "int:-2147483649", "uint:-1", "uint:4294967296", "long:9223372036854775808", "ulong:-1",
            "ulong:18446744073709551616", "llong:-9223372036854775809", "ullong:99999999999999999999999", "int:", "int:abc",
            "int:1.5", "bool:2", "dbl:123", "dbl:zz:zz", "str:6", "str:zz", "mem:0", "ptr:99", "fptr:-1", "obj::1", "obj:A+B:1",
@@ -350,14 +379,17 @@ def generate(rng, tier):
                 ops.append(rng.choice(["eq", "get", "eq int:1", "frob int:1 int:1", "eq int:1 int:1 int:1", "tostr", "tostr foo:1",
                                        "compat int:1", "name 6", "name zz -", "ladd null int:1", "ladd 61 int:99999999999", "lget null",
                                        "rcmp 9 T1 1", "rcmp 0 T1 0", "rcmp 0 T1 5", "rcop 0 T1 3", "rcmp 0 int 1", "rget 4 T1",
-                                       "rimport 0 7", "rdefault 5", "rclear x", "getx", "dbld:12"]))
+                                       "rimport 0 7", "rdefault 5", "rclear x", "getx", "dbld:12",
+                                       "eqapi ovl.int:1", "eqapi foo.int:1 c.int:1", "eqapi ovl.int:4294967296 c.int:1",
+                                       "eqapi c.ullong:-1 c.int:1", "eqapi c.bool:1 c.int:1", "eqapi ovl.int c.int:1"]))
         out.append(("malformed", ops))
     return out
 
 
 def translate(ctx):
-    from translate import cxx2lean_c09
-    return cxx2lean_c09.run()
+    from translate import cxx2lean_c09, extract_cmock
+    # Gen/CMockWiring.lean (C19's translator, used unchanged): the C forwarders' callees, read by Model/MockEntry.lean
+    return list(extract_cmock.run() or []) + list(cxx2lean_c09.run() or [])
 
 
 def extra(ctx, exe):
@@ -381,7 +413,7 @@ def nontrivial(r):
             k = _kinds(l[2:])
             if len(k) == 2 and k[0] != k[1]:
                 return True
-        if l.split()[:2][-1] in ("tostr", "compat", "getx", "lget", "rget", "rimport"):
+        if l.split()[:2][-1] in ("tostr", "compat", "getx", "lget", "rget", "rimport", "eqapi"):
             return True
     return False
 
@@ -427,6 +459,11 @@ def observe(r, rep):
             rep.count("getter.%s.%s" % (w[0], w[1]))
         elif cur[0] == "tostr" and w[0] == "s" and len(cur) == 2:
             rep.count("toString.%s" % cur[1].split(":")[0].replace("cobj", "obj"))
+        elif cur[0] == "eqapi" and w[0] == "p" and len(cur) == 3:
+            e, a = cur[1].split(":")[0].split("."), cur[2].split(":")[0].split(".")
+            rep.count("eqapi.%s-%s.%s" % (e[0], a[0], "pass" if w[1] == "1" else "fail"))
+            if int(cur[1].split(":")[1]) != int(cur[2].split(":")[1]) and (int(cur[1].split(":")[1]) - int(cur[2].split(":")[1])) % 2**32 == 0:
+                rep.count("eqapi.same_bits_different_integer")
         elif cur[0] == "compat" and w[0] == "c":
             rep.count("compatibleForCopying.%s%s" % (w[1], w[2]))
         elif cur[0] == "lget" and w[0] == "item":
@@ -447,6 +484,9 @@ def signature(r):
             return "spec:" + re.sub(r"\d+", "N", r.spec[10:])[:120]
         kinds = "-".join(t.split(":")[0] for t in m.group(2).split())
         what = m.group(3)
+        if m.group(1) == "eqapi":        # class = the two entry points and the direction of the error
+            kinds = "-".join(t.split(".")[0] for t in m.group(2).split())
+            what = what.split(":")[0]
         g = re.match(r"(\w+)\(\) returned", what)
         if g:
             what = g.group(1) + " returned a different number"
